@@ -977,7 +977,7 @@ PI = z3.Real('pi')
 INF = z3.Real('inf')
 
 BUILTIN_NAMES = {'len', 'range', 'min', 'max', 'abs', 'int', 'float', 'bool', 'tuple', 'list', 'set', 'dict', 'sorted',
-                 'enumerate', 'zip', 'sum', 'isinstance', 'implies', 'iff', 'ite', 'mapset', 'key_at', 'round', 'type', 'str',
+                 'enumerate', 'zip', 'sum', 'isinstance', 'implies', 'iff', 'ite', 'mapset', 'key_at', 'round', 'type', 'str', 'isinf',
                  'reversed', 'map', 'filter', 'deque', 'iter', 'next', 'hasattr', 'getattr', 'id', 'print', 'complex'}
 
 
